@@ -568,3 +568,7 @@ _add(
     "C25",
     m("rollback-walks-valid-parents-only", D, "            .filter(Handle.fullname == handle.__handle__.fullname)\n            .all()", "            .filter(Handle.fullname == handle.__handle__.fullname, Handle.is_valid.is_(True))\n            .all()", "C25.3"),
 )
+_add(
+    "C38",
+    m("subrun-defaults-outrank-exports", S, "        **subrun.get_task_options(),\n        **parent_job.get_export_options(),\n        **sexpr._options,\n", "        **parent_job.get_export_options(),\n        **subrun.get_task_options(),\n        **sexpr._options,\n", "C38.6"),
+)
